@@ -225,7 +225,7 @@ PROPS = {
         "len() = bytes written, readiness true iff after drop. Leg 2: producer and consumer on real threads with "
         "seeded delays at the cfg-hook points inside update/Drop/switch/await; interleaving signature and hand-off "
         "class from the trace; await must never return before the producer's drop; a stalled case is re-run alone 3x "
-        "before it counts as no_progress. Leg 3: Miri (-Zmiri-many-seeds, 8 quick / 64 thorough) on a reduced threaded "
+        "before it counts as no_progress. Leg 3: Miri (-Zmiri-many-seeds, 8 quick / 48 thorough) on a reduced threaded "
         "workload with R = BufWriter<..> as in bigtools (data races, UB, deadlock are definite verdicts). Thorough adds "
         "leg 2 in a ThreadSanitizer build. Non-trivial = at least one write; distinct by history / by interleaving "
         "signature.",
